@@ -56,10 +56,13 @@ theorem skel_handleOutChans_shape :
 theorem skel_makeOutChan_shape :
     Generated.skel_makeOutChan = [
   "retVal := reflect.Zero(ftyp.Out(valOut))",
+  "// retVal is written by the frame executor (chCtor) and read by the calling goroutine, which may // have been woken by closeInFlight rather than by the executor var retLk sync.Mutex",
   "chCtor := func{…}",
   "  ctyp := reflect.ChanOf(reflect.BothDir, ftyp.Out(valOut).Elem())",
   "  ch := reflect.MakeChan(ctyp, 0)",
+  "  retLk.Lock()",
   "  retVal = ch.Convert(ftyp.Out(valOut))",
+  "  retLk.Unlock()",
   "  incoming := make(chan reflect.Value, 32)",
   "  go func{…}()",
   "    buf := (&list.List{}).Init()",
@@ -100,6 +103,8 @@ theorem skel_makeOutChan_shape :
   "      case incoming <- val",
   "      case <-ctx.Done()",
   "return func{…}, chCtor",
+  "  retLk.Lock()",
+  "  defer retLk.Unlock()",
   "  return retVal"] := rfl
 
 /-- `closeChans`: every sink is removed from the table before its close callback runs, under the handler lock. -/
